@@ -228,15 +228,28 @@ def main(argv=None):
     # model correspondence
     mism, errs = [], []
     if eng.model:
-      mism, errs = C.model_mismatches(eng.name, eng.imports, eng.run_fn,
-                                      [(eng.to_coq(c), o['obs']) for c, o in zip(cases, outs)])
-      disagreements_checked += len(cases)
+      # the harness must survive whatever the implementation does while a case is turned into the model's input
+      # (some printers measure the implementation again): such a case is left out of the model run; if the
+      # implementation-side predicates reported nothing for it, the broken tie itself is reported
+      pairs_idx, terms = [], []
+      for i, (c, o) in enumerate(zip(cases, outs)):
+        try:
+          terms.append((eng.to_coq(c), o['obs']))
+          pairs_idx.append(i)
+        except Exception:  # pylint: disable=broad-except
+          if not o['fails'] and len(disagreement_replays) < 3:
+            disagreement_replays.append({'engine': eng.name, 'correspondence': 'corr:%s/model-input-failed' % eng.name,
+                                         'case': c, 'errors': [traceback.format_exc()[-1500:]]})
+      mism0, errs = C.model_mismatches(eng.name, eng.imports, eng.run_fn, terms)
+      mism = [pairs_idx[i] for i in mism0]
+      disagreements_checked += len(terms)
       if errs:
         disagreement_replays.append({'engine': eng.name, 'correspondence': 'corr:%s/model-run-failed' % eng.name,
                                      'errors': errs[:3]})
       if mism:
         # examine (up to 6 of) the disagreeing cases: one that a recorded finding does not explain is reported
         for i in mism[:6]:
+         try:
           pre = [match_known(known, pid, f[0], f[1], cases[i]) for f in outs[i]['fails']]
           if pre and all(pre):
             small, so = cases[i], outs[i]          # already explained by a recorded finding: no need to shrink
@@ -256,6 +269,12 @@ def main(argv=None):
               'n_disagreeing_cases': len(mism), 'case': small,
               'impl_observation': so['obs'], 'impl_pimpl_fails': so['fails'],
               'model_observation': C.model_eval(eng.name, eng.imports, eng.run_fn, eng.to_coq(small))})
+          break
+         except Exception:  # pylint: disable=broad-except
+          disagreement_replays.append({'engine': eng.name, 'correspondence': 'corr:%s/observations' % eng.name,
+                                       'n_disagreeing_cases': len(mism), 'case': cases[i],
+                                       'impl_observation': outs[i]['obs'], 'impl_pimpl_fails': outs[i]['fails'],
+                                       'errors': [traceback.format_exc()[-1500:]]})
           break
     total_eval += len(cases)
     total_nt += nt
